@@ -55,6 +55,13 @@ func disjuncts(v ssa.Value) []ssa.Value {
 	if !ok {
 		return []ssa.Value{v}
 	}
+	// only `a || b` decomposes: its φ has `true` on the short-circuit edges. A φ with a `false` edge is a
+	// conjunction: that it is false says nothing about its operands individually.
+	for _, e := range phi.Edges {
+		if c, ok := e.(*ssa.Const); ok && !constBool(c) {
+			return []ssa.Value{v}
+		}
+	}
 	var out []ssa.Value
 	for i, e := range phi.Edges {
 		if c, ok := e.(*ssa.Const); ok && constBool(c) {
@@ -124,6 +131,20 @@ func falseAtD(p *core.Prog, at ssa.Instruction, depth int) []cmp {
 			if depth < 3 {
 				if pb := feasiblePred(ifi, bi == 0); pb != nil && len(pb.Instrs) > 0 {
 					out = append(out, falseAtD(p, pb.Instrs[len(pb.Instrs)-1], depth+1)...)
+					// and the value that predecessor fed into the φ is the value the branch saw
+					if ev, want := phiEdgeValue(ifi, bi == 0, pb); ev != nil {
+						if want {
+							if c, ok := asCmp(ev, ifi, true); ok {
+								out = append(out, c)
+							}
+						} else {
+							for _, d := range disjuncts(ev) {
+								if c, ok := asCmp(d, ifi, false); ok {
+									out = append(out, c)
+								}
+							}
+						}
+					}
 				}
 			}
 			// several predecessors merge before this test (two loop exits, an if/else join): a predecessor whose
@@ -441,4 +462,31 @@ func sameOperand(a, b ssa.Value) bool {
 		return ca.IsNil() && cb.IsNil()
 	}
 	return ca.Value != nil && cb.Value != nil && ca.Value.Kind() == cb.Value.Kind() && constant.Compare(ca.Value, token.EQL, cb.Value)
+}
+
+// phiEdgeValue: ifi's condition is (a negation of) a bool φ of its block; the incoming value of predecessor
+// pb and the truth value it must have had for the branch to go to the `val` side.
+func phiEdgeValue(ifi *ssa.If, val bool, pb *ssa.BasicBlock) (ssa.Value, bool) {
+	v := ifi.Cond
+	for {
+		if u, ok := v.(*ssa.UnOp); ok && u.Op == token.NOT {
+			v = u.X
+			val = !val
+			continue
+		}
+		break
+	}
+	phi, ok := v.(*ssa.Phi)
+	if !ok || phi.Block() != ifi.Block() {
+		return nil, false
+	}
+	for i, p := range phi.Block().Preds {
+		if p == pb && i < len(phi.Edges) {
+			if _, isConst := phi.Edges[i].(*ssa.Const); isConst {
+				return nil, false
+			}
+			return phi.Edges[i], val
+		}
+	}
+	return nil, false
 }
